@@ -310,6 +310,13 @@ func (d *Decls) typeTagNamed(k string) int {
 	return v
 }
 
+// chanCapDecl registers the state component that records the capacity every channel was made with.
+func (d *Decls) chanCapDecl() {
+	if _, ok := d.heapSort["$chancap"]; !ok {
+		d.heapSort["$chancap"] = "(Array Int Int)"
+	}
+}
+
 // box/unbox for non-pointer dynamic values in interfaces
 func (d *Decls) boxFuns(t types.Type) (box, unbox string) {
 	n := mangle(typeName(t))
